@@ -92,7 +92,22 @@ def plan_st(draw, tier):
                     row[col] = row[col] * f
         for row in q:
             row[col] = row[col] * f
+    if not scale and draw(st.integers(0, 5)) == 0 and not any(op[0].endswith("_tiled") for op in ops_):
+        # training contexts handed over as a single- or half-precision array (values rounded to that type first, so
+        # the reference regression sees exactly the same numbers): the regression must still be the double-precision
+        # one of those numbers
+        dt = draw(st.sampled_from(["float32", "float16", "float32"]))
+        if max([abs(v) for op in ops_ if op[0] in ("fit", "partial_fit") for row in op[3] for v in row] + [0]) > 1000:
+            dt = "float32"          # (half precision overflows at 65504)
+        for op in ops_:
+            if op[0] in ("fit", "partial_fit"):
+                rows = np.asarray(op[3], dtype=dt).astype(float).tolist()
+                op[3] = {"array": rows, "dtype": dt}
     return {"config": cfg, "ops": ops_, "query": q}
+
+
+def ctx_rows(c):
+    return c["array"] if isinstance(c, dict) else c
 
 
 def strategy(tier, ctx):
@@ -110,7 +125,7 @@ def arm_rows(plan):
             rows = {a: ([], []) for a in arms}
         if kind in ("fit", "partial_fit"):
             for _ in range(times):
-                for d, r, x in zip(op[1], op[2], op[3]):
+                for d, r, x in zip(op[1], op[2], ctx_rows(op[3])):
                     if d in rows:
                         rows[d][0].append(x)
                         rows[d][1].append(r)
